@@ -101,7 +101,9 @@ pub fn layer_b_cases(max_cs: u32) -> Vec<CaseB> {
 
 /// The same property at the command line: `kestrel encrypt` then `kestrel decrypt`, data through files or real pipes.
 #[derive(Clone, Debug, Serialize, Deserialize)]
-pub struct CliCase { pub plain: Plain, pub enc_pipe: Option<Vec<u16>>, pub dec_pipe: Option<Vec<u16>>, pub enc_stdout: bool, pub dec_stdout: bool }
+pub struct CliCase { pub plain: Plain, pub enc_pipe: Option<Vec<u16>>, pub dec_pipe: Option<Vec<u16>>, pub enc_stdout: bool, pub dec_stdout: bool,
+    /// the plaintext is given as a FILE argument that names a FIFO (not a regular file, not stdin)
+    #[serde(default)] pub enc_fifo: bool }
 /// Cut points given as fractions of the data length -> piece sizes (so small inputs are split as well).
 pub fn pieces(cuts: &[u16], len: usize) -> Vec<usize> { let mut pos: Vec<usize> = cuts.iter().map(|&c| crate::core::pick(c, len + 1)).collect(); pos.sort(); let mut v = Vec::new(); let mut last = 0; for p in pos { if p > last { v.push(p - last); last = p; } } v }
 pub fn check_cli(c: &CliCase) -> CheckResult {
@@ -110,8 +112,10 @@ pub fn check_cli(c: &CliCase) -> CheckResult {
     sb.write("keys.txt", cli::keyring_text(&[(&id.alice, true), (&id.bob, true)]).as_bytes()); sb.write("p.bin", &p);
     // every other case: longer files are already sitting at the two output paths (a re-run over old results)
     let stale = c.plain.seed % 2 == 0; if stale { sb.write("c.ktl", &gen::bytes_from(1, p.len() + 900)); sb.write("out.bin", &gen::bytes_from(2, p.len() + 300)); }
-    let mut a = vec!["encrypt"]; if c.enc_pipe.is_none() { a.push("p.bin"); } a.extend(["-t", "bob", "-f", "alice", "-k", "keys.txt", "--env-pass"]); if !c.enc_stdout { a.extend(["-o", "c.ktl"]); }
-    let mut cmd = sb.cmd(&a).env("KESTREL_PASSWORD", &id.alice.password); if let Some(sz) = &c.enc_pipe { cmd = cmd.stdin(In::Pipe(p.clone(), pieces(sz, p.len()))); }
+    let fifo = c.enc_fifo && c.enc_pipe.is_some();
+    let mut a = vec!["encrypt"]; if fifo { a.push("p.fifo"); } else if c.enc_pipe.is_none() { a.push("p.bin"); } a.extend(["-t", "bob", "-f", "alice", "-k", "keys.txt", "--env-pass"]); if !c.enc_stdout { a.extend(["-o", "c.ktl"]); }
+    let mut cmd = sb.cmd(&a).env("KESTREL_PASSWORD", &id.alice.password);
+    if let Some(sz) = &c.enc_pipe { if fifo { cmd.fifos.push(("p.fifo".into(), p.clone(), pieces(sz, p.len()))); } else { cmd = cmd.stdin(In::Pipe(p.clone(), pieces(sz, p.len()))); } }
     let r = cmd.run(); ensure!(r.code == Some(0), "kestrel encrypt failed: {}", r.describe());
     let ct = if c.enc_stdout { r.stdout.clone() } else { sb.read("c.ktl").ok_or("no ciphertext file")? }; sb.write("c2.ktl", &ct);
     let mut a = vec!["decrypt"]; if c.dec_pipe.is_none() { a.push("c2.ktl"); } a.extend(["-t", "bob", "-k", "keys.txt", "--env-pass"]); if !c.dec_stdout { a.extend(["-o", "out.bin"]); }
@@ -121,7 +125,7 @@ pub fn check_cli(c: &CliCase) -> CheckResult {
     ensure!(out == p, "command-line round trip changed the plaintext ({} bytes in, {} out)", p.len(), out.len());
     ensure!(r.stderr_s().contains("Success. File from: alice"), "decrypt did not report the sender: {}", r.stderr_s());
     let nchunks = if ct.len() > 132 { kspec::parse_records(&ct[132..]).map(|r| r.len()).unwrap_or(0) } else { 0 };
-    ok(nchunks >= 2 || p.is_empty() || c.enc_pipe.is_some() || c.dec_pipe.is_some(), format!("cli/{}{}/{}chunks", if c.enc_pipe.is_some() { "pipe-in" } else { "file-in" }, if c.dec_pipe.is_some() { "+pipe-dec" } else { "" }, nchunks.min(4)))
+    ok(nchunks >= 2 || p.is_empty() || c.enc_pipe.is_some() || c.dec_pipe.is_some(), format!("cli/{}{}/{}chunks", if fifo { "fifo-arg" } else if c.enc_pipe.is_some() { "pipe-in" } else { "file-in" }, if c.dec_pipe.is_some() { "+pipe-dec" } else { "" }, nchunks.min(4)))
 }
 
 pub fn run(ctx: &Ctx) {
@@ -135,6 +139,13 @@ pub fn run(ctx: &Ctx) {
     ctx.put("sse_space", serde_json::json!(total));
     ctx.shrink_iters.store(20, std::sync::atomic::Ordering::Relaxed);
     let sizes = || proptest::option::of(proptest::collection::vec(any::<u16>(), 0..7));
-    ctx.pbt("cli_files_and_pipes", ctx.n(64, 1_500), || (prop_oneof![1 => Just(Plain { len: 0, seed: 0 }), 4 => gen::small_plain(2000), 2 => gen::plain_strategy(300_000)], sizes(), sizes(), any::<bool>(), any::<bool>()).prop_map(|(plain, enc_pipe, dec_pipe, enc_stdout, dec_stdout)| CliCase { plain, enc_pipe, dec_pipe, enc_stdout, dec_stdout }), check_cli);
+    ctx.pbt("cli_files_and_pipes", ctx.n(64, 1_500), || (prop_oneof![1 => Just(Plain { len: 0, seed: 0 }), 4 => gen::small_plain(2000), 2 => gen::plain_strategy(300_000), 1 => (1usize..40).prop_map(|k| Plain { len: k * 4096, seed: 0 }), 1 => (0usize..200_000).prop_map(|len| Plain { len, seed: 0 })], sizes(), sizes(), any::<bool>(), any::<bool>(), any::<bool>()).prop_map(|(plain, enc_pipe, dec_pipe, enc_stdout, dec_stdout, enc_fifo)| CliCase { plain, enc_pipe, dec_pipe, enc_stdout, dec_stdout, enc_fifo }), check_cli);
+    ctx.sse_vec("cli_zero_filled_and_fifo", "all-zero plaintexts of k*4096 bytes (a writer that skips zero blocks would lose the tail), data ending in a zero chunk, FIFO given as FILE", vec![
+        CliCase { plain: Plain { len: 4096, seed: 0 }, enc_pipe: None, dec_pipe: None, enc_stdout: false, dec_stdout: false, enc_fifo: false },
+        CliCase { plain: Plain { len: 131072, seed: 0 }, enc_pipe: None, dec_pipe: None, enc_stdout: false, dec_stdout: false, enc_fifo: false },
+        CliCase { plain: Plain { len: 65536 + 8192, seed: 0 }, enc_pipe: None, dec_pipe: Some(vec![]), enc_stdout: true, dec_stdout: false, enc_fifo: false },
+        CliCase { plain: Plain { len: 5000, seed: 77 }, enc_pipe: Some(vec![20000, 40000]), dec_pipe: None, enc_stdout: false, dec_stdout: false, enc_fifo: true },
+        CliCase { plain: Plain { len: 0, seed: 78 }, enc_pipe: Some(vec![]), dec_pipe: None, enc_stdout: false, dec_stdout: true, enc_fifo: true },
+        CliCase { plain: Plain { len: 150_000, seed: 79 }, enc_pipe: Some(vec![1000, 30000, 65000]), dec_pipe: None, enc_stdout: false, dec_stdout: false, enc_fifo: true }], check_cli);
     ctx.put("spec_agreement", serde_json::json!({"agree": SPEC_AGREE.load(Ordering::Relaxed), "disagree": SPEC_DISAGREE.load(Ordering::Relaxed), "note": "informational only; byte conformance is C06's verdict"}));
 }
